@@ -142,6 +142,9 @@ func (c *c19Ctx) genScenario(seed uint64, progs []*c19Prog) *Scenario {
 	}
 	srcKinds := []string{"file", "missing", "dir", "mode000", "symlink_ok", "dangling", "loop", "spacename", "nonascii_name", "longname", "same_as_dst", "emptyarg", "fifo", "stdin", "relative", "dotslash", "barename"}
 	s.SrcKind = srcKinds[r.weighted([]int{70, 3, 2, 2, 2, 1, 1, 2, 2, 1, 2, 1, 3, 3, 2, 2, 5})]
+	if (s.Shape == "d-src-dst" || s.Shape == "d-src") && s.SrcKind == "file" && r.Chance(1, 3) {
+		s.SrcKind = "barename" // switches next to bare names: option parsing may swallow an unusual first character
+	}
 	if r.Chance(1, 16) && len(s.Header)+len(s.Body) > 0 {
 		s.Break = 1 + r.Intn(4)
 		s.BreakLine = r.Intn(len(s.Header) + len(s.Body))
